@@ -8,6 +8,8 @@ position of `[0, Len)` lies in exactly one piece, rejected updates change nothin
 import Biogo.Spec.Gene
 import Biogo.Spec.GeneCheck
 import Biogo.Proofs.Gene
+import Biogo.Drive.C20
+import Biogo.Properties.C20
 
 namespace Biogo.Properties.C20_checker
 open Biogo.Gene Biogo.Feat Biogo.Spec.Gene Biogo.Spec.GeneCheck Biogo.Proofs.Gene
@@ -193,6 +195,68 @@ theorem maxStop_iff (fs : List FeatIv) (l : Int) :
         · rw [← h5]; exact Int.le_max_left _ _
         · rw [← hgs]; exact Int.le_trans (hm.1 g hg) (Int.le_max_right _ _)
       omega
+
+/-! ### nested positions: the closed forms `specQuery` compares with
+
+`specQuery` compares the implementation's answers (as strings) with `p + startSum (segment nodes i j)`,
+`orientAll (segment nodes i j)`, `startSum`/`lastId`/`baseOrientSpec` of `nodes.drop i`.  The last three are
+the right-hand sides of `basePositionOf_eq` / `baseOrientationOf_eq` verbatim (the chain seen from node `i`
+*is* `nodes.drop i`).  For the first two, the chain of the theorems is `pre ++ m :: rest`; the lemmas below
+say that this is the driver's `segment`: for nodes numbered `1, 2, …` as `parseChainFrom 1` numbers them,
+the model's answers are the closed forms the driver demands. -/
+
+open Biogo.Drive.C20 in
+theorem chain_split (nodes : List Node) (i j : Nat) (hij : i ≤ j) (hj : j < nodes.length) :
+    nodes.drop i = segment nodes i j ++ nodes[j] :: nodes.drop (j + 1) := by
+  unfold segment
+  conv => lhs; rw [← List.take_append_drop (j - i) (nodes.drop i)]
+  rw [List.drop_drop, show i + (j - i) = j by omega, List.drop_eq_getElem_cons hj]
+
+open Biogo.Drive.C20 in
+theorem mem_segment (nodes : List Node) (hid : ∀ idx (h : idx < nodes.length), nodes[idx].id = idx + 1)
+    (i j : Nat) (hj : j < nodes.length) (x : Node) (hx : x ∈ segment nodes i j) : x.id ≠ j + 1 := by
+  unfold segment at hx
+  rw [List.mem_take_iff_getElem] at hx
+  obtain ⟨t, ht, rfl⟩ := hx
+  rw [List.length_drop] at ht
+  rw [List.getElem_drop, hid]
+  omega
+
+open Biogo.Drive.C20 in
+/-- clause "PositionWithin-is-not-the-sum-of-starts": what the driver demands of
+    `PositionWithin(node i, node j, p)` for `i ≤ j`, fewer than 1000 links apart, is what the model
+    answers (`positionWithin_eq`) -/
+theorem query_positionWithin (nodes : List Node)
+    (hid : ∀ idx (h : idx < nodes.length), nodes[idx].id = idx + 1)
+    (i j : Nat) (p : Int) (hij : i ≤ j) (hj : j < nodes.length) (hlim : j - i < limit) :
+    positionWithin (nodes.drop i) (some (j + 1)) p = .ok (p + startSum (segment nodes i j), true) := by
+  rw [chain_split nodes i j hij hj]
+  have := Biogo.Properties.C20.positionWithin_eq (segment nodes i j) nodes[j] (nodes.drop (j + 1)) p
+    (fun x hx => by rw [hid j hj]; exact mem_segment nodes hid i j hj x hx)
+    (by unfold segment; rw [List.length_take, List.length_drop]; omega)
+  rw [hid j hj] at this
+  exact this
+
+open Biogo.Drive.C20 in
+/-- clause "OrientationWithin-is-not-the-product", for a proper ancestor `i < j` -/
+theorem query_orientationWithin (nodes : List Node)
+    (hid : ∀ idx (h : idx < nodes.length), nodes[idx].id = idx + 1)
+    (i j : Nat) (hij : i < j) (hj : j < nodes.length) (hlim : j - i ≤ limit) :
+    orientationWithin (nodes.drop i) (some (j + 1)) = .ok (orientAll (segment nodes i j)) := by
+  rw [chain_split nodes i j (by omega) hj]
+  cases hseg : segment nodes i j with
+  | nil =>
+    have := congrArg List.length hseg
+    unfold segment at this
+    rw [List.length_take, List.length_drop] at this
+    simp at this; omega
+  | cons x pre =>
+    have hlen : (x :: pre).length ≤ limit := by
+      rw [← hseg]; unfold segment; rw [List.length_take, List.length_drop]; omega
+    have := Biogo.Properties.C20.orientationWithin_eq x pre nodes[j] (nodes.drop (j + 1))
+      (fun y hy => by rw [hid j hj]; exact mem_segment nodes hid i j hj y (hseg ▸ hy)) hlen
+    rw [hid j hj] at this
+    exact this
 
 /-! ### property theorems -/
 
